@@ -143,8 +143,15 @@ func (f *Frame) execCall(cur *blockCur, in ssa.Instruction, cc *ssa.CallCommon, 
 				v.T = res.Type()
 			}
 			f.vals[res] = v
-			if pv, ok := f.c.preRet[in]; ok && f.callerFrame == nil && v.S != "" && pv.S != "" {
-				f.c.axiom(fmt.Sprintf("(= %s %s)", pv.S, v.S), pv.S)
+			if pv, ok := f.c.preRet[in]; ok && f.callerFrame == nil {
+				if v.S != "" && pv.S != "" {
+					f.c.axiom(fmt.Sprintf("(= %s %s)", pv.S, v.S), pv.S)
+				}
+				for k := 0; k < len(pv.Tup) && k < len(v.Tup); k++ {
+					if pv.Tup[k].S != "" && v.Tup[k].S != "" {
+						f.c.axiom(fmt.Sprintf("(= %s %s)", pv.Tup[k].S, v.Tup[k].S), pv.Tup[k].S)
+					}
+				}
 			}
 			// returned(NAME) in specifications: the value of the latest call of NAME
 			if f.callerFrame == nil {
